@@ -2,6 +2,7 @@ package sym
 
 import (
 	"fmt"
+	"go/types"
 	"regexp"
 	"sort"
 	"regexp/syntax"
@@ -468,18 +469,44 @@ func registerRegexp(e *Engine) {
 
 	// os/exec: commands are never run; starting one is a ghost "exec" event and the
 	// result is an arbitrary (output, error).
-	e.Intr["os/exec.Command"] = func(c *Call) []*State {
-		id := c.St.Alloc(Opaque{Kind: "exec.Cmd", Data: c.Args[0]})
+	// exec.Command / CommandContext: a real exec.Cmd struct (Path, Args set; callers may fill
+	// Env, Dir, Stdout, ... as ordinary field stores); the run methods are summarised below.
+	newCmd := func(c *Call, name Value, args Value) []*State {
+		ct := e.Prog.ImportedPackage("os/exec").Type("Cmd").Type()
+		st := Zero(ct).(*Struct)
+		us := ct.Underlying().(*types.Struct)
+		for i := 0; i < us.NumFields(); i++ {
+			switch us.Field(i).Name() {
+			case "Path":
+				st.F[i] = name
+			case "Args":
+				vals := []Value{name}
+				if sl, ok := args.(Slice); ok {
+					for j := 0; j < sl.Len; j++ {
+						vals = append(vals, c.St.Load(Ptr{Obj: sl.Obj, Path: []int{sl.Off + j}}))
+					}
+				}
+				st.F[i] = e.newSlice(c.St, vals)
+			}
+		}
+		id := c.St.Alloc(st)
 		return c.Return(Ptr{Obj: id})
 	}
-	e.Intr["os/exec.CommandContext"] = func(c *Call) []*State {
-		id := c.St.Alloc(Opaque{Kind: "exec.Cmd", Data: c.Args[1]})
-		return c.Return(Ptr{Obj: id})
+	e.Intr["os/exec.Command"] = func(c *Call) []*State { return newCmd(c, c.Args[0], c.Args[1]) }
+	e.Intr["os/exec.CommandContext"] = func(c *Call) []*State { return newCmd(c, c.Args[1], c.Args[2]) }
+	cmdName := func(c *Call) Value {
+		p := c.Args[0].(Ptr)
+		switch o := c.St.Heap[p.Obj].(type) {
+		case Opaque:
+			return o.Data
+		case *Struct:
+			return o.F[0] // Path
+		}
+		return StrC("?")
 	}
 	execRun := func(withOut bool) Intrinsic {
 		return func(c *Call) []*State {
-			p := c.Args[0].(Ptr)
-			name := c.St.Heap[p.Obj].(Opaque).Data
+			name := cmdName(c)
 			c.St.Events = append(c.St.Events, Event{Kind: "exec", Args: []Value{name}, Thr: c.Th.ID})
 			ok := FreshVar("exec.ok", SBool, 0)
 			c.St.Nondets = append(c.St.Nondets, NondetRec{Tag: "exec.ok", Kind: "bool", Term: ok})
